@@ -170,7 +170,9 @@ GROUPS += [
         "bounds": "every INV state (all scalars symbolic)",
     },
     {
-        "id": "C10.window", "property": "C10", "crate": "core", "harnesses": ["c10_flow_state_window_queries"], "jobs": 1,
+        "id": "C10.window", "property": "C10", "crate": "core", "stubbing": True,
+        "stubs": ["std::hash::RandomState::new -> arbitrary keys (the OS random source is a syscall)"],
+        "harnesses": ["c10_flow_state_window_queries"], "jobs": 1,
         "timeout_s": 900, "mem_gb": 12, "functions": ["state::FlowState::{new,hops,target_hop,is_target,is_in_round,round,round_count}"],
         "bounds": "real FlowState::new (254 hops) with lowest/highest/highest-for-round ttl symbolic under WIN",
         "assumptions": ["WIN (lowest in {0} u [1,254], hfr <= highest <= 254, lowest <= highest when both set) is what "
